@@ -166,6 +166,10 @@ def boolean_algebra_table(ctx, rule, deep=False):
     for x, a in nested:
         c = f'{x}:is({a})'
         texts += [x, f':is({a})', c, f':is({c})', f':where({c})', f':not({c})', f':is({c}, b)', f':not({c}, b)', 'b', f'*:nth-child(n of {c})']
+    # three and four levels of nesting: wrapping in :is() / :where() and double negation change nothing
+    deep_forms = [':is(:where(:is({})))', ':not(:not({}))', ':not(:is(:not({})))', ':is(:not(:not(:is({}))))', ':not(:not(:not(:not({}))))']
+    for a in PAIR_POOL:
+        texts += [f.format(a) for f in deep_forms]
     texts = list(dict.fromkeys(texts))
     docs, meta = {}, {}
     for kind in kinds:
@@ -207,6 +211,8 @@ def boolean_algebra_table(ctx, rule, deep=False):
                 rx_ = sel(x)
                 check(f'{x}:is({a})', [e for e in rx_[1] if e in ra[1]], f'the intersection of {x!r} and {a!r}')
             check(f':not({a})', [e for e in els if e not in ra[1]], f'the complement of {a!r}')
+            for f_ in deep_forms:
+                check(f_.format(a), ra[1], f'what {a!r} selects (nested :is() / :where() and double negations change nothing)')
         for x, a in nested:
             rx_, ra, rb = sel(x), sel(f':is({a})'), sel('b')
             if rx_[0] != 'ok' or ra[0] != 'ok' or rb[0] != 'ok':
@@ -577,6 +583,54 @@ def argument_reuse_table(ctx, rule):
         rule.violation(f'argument reuse `{text}` {argname}', 'soupsieve/__init__.py (compile) / css_parser.py (process_custom, _cached_css_compile)',
                        f'select({text!r}, {argname}=d) with d == {now!r}, after an earlier call with the same dict object when it held {start!r}, gives {got}; '
                        f'a call with a new dict of the same contents gives {want}: the result depends on an earlier call, not on the arguments')
+
+
+CONJ_POOL = [':has(> a)', ':nth-child(odd)', ':lang(fr)', ':-soup-contains(hello)', ':not(.x)', '.x', '[type]', ':first-child', ':empty', ':checked', ':is(p, li)',
+             ':nth-last-child(2)', ':not(:has(+ p))', ':link', ':required', ':nth-of-type(2)', ':-soup-contains-own("1")', ':has(~ span)', ':dir(ltr)', ':not(:empty)',
+             '[class~=z]', ':only-child', ':nth-child(2 of .x)', ':has(:checked)', ':where(.x, .z)', ':not(:nth-child(odd))', ':enabled', ':defined']
+
+
+def compound_conjunction_table(ctx, rule, deep=False):
+    """A compound selector designates the elements every one of its simple selectors designates: for pairs (A, B) of simple
+    selectors of different families (structural, relational, text, language, state, attribute, logical), `*AB` and `*BA` select
+    the intersection of what `*A` and `*B` select - on the HTML and XHTML flavours of the reference tree."""
+    from ..e2e import batch_api
+    kinds = ('html', 'xhtml') if deep else ('html',)
+    pairs = list(itertools.combinations(CONJ_POOL, 2))
+    if not deep:
+        pairs = pairs[::2]
+    texts = [f'*{a}' for a in CONJ_POOL]
+    for a, b in pairs:
+        texts += [f'*{a}{b}', f'*{b}{a}']
+    texts = list(dict.fromkeys(texts))
+    docs = {}
+    for kind in kinds:
+        doc, order, L = make_doc(TREE, kind)
+        docs[kind] = (doc, order)
+    ns = (('namespaces', {'x': 'urn:x'}),)
+    reqs = [(kind, 'select', t, None, ns) for kind in kinds for t in texts]
+    res = dict(zip([(r[0], r[2]) for r in reqs], batch_api(ctx, docs, reqs)))
+    bad = None
+    for kind in kinds:
+        order = docs[kind][1]
+        show = lambda r: [label(order[i]) for i in r[1]] if r[0] == 'ok' else f'raises {r[1]}'      # noqa: E731
+        for a, b in pairs:
+            ra, rb = res[(kind, f'*{a}')], res[(kind, f'*{b}')]
+            if ra[0] != 'ok' or rb[0] != 'ok':
+                if bad is None:
+                    bad = (kind, f'*{a}' if ra[0] != 'ok' else f'*{b}', show(ra if ra[0] != 'ok' else rb), 'a result (each selector of the pool is valid)')
+                continue
+            want = [e for e in ra[1] if e in rb[1]]
+            for text in (f'*{a}{b}', f'*{b}{a}'):
+                got = res[(kind, text)]
+                rule.instance({'document': kind, 'compound': text, 'selected': len(got[1]) if got[0] == 'ok' else got}, key=f'conj|{kind}|{text}', sample_cap=4)
+                if got != ('ok', want) and bad is None:
+                    bad = (kind, text, show(got), f'the intersection of *{a} and *{b}: {[label(order[i]) for i in want]}')
+    rule.obligation(bad is None)
+    if bad is not None:
+        kind, text, got, law = bad
+        rule.violation(f'compound `{text}` ({kind})', 'soupsieve/css_match.py (match_selectors) / css_parser.py',
+                       f'{text!r} on the {kind} flavour of the reference tree selects {got}; a compound designates {law}')
 
 
 HOSTILE = ['a', 'A', '0', '-', '-0', '--', 'a b', 'a b', 'a\tb', 'a\x0bb', 'a b', 'a\x1cb', 'a.b', 'a#b', 'a:b', 'a"b', "a'b", 'a\\b', 'a\x7fb', '\x01',
@@ -1280,6 +1334,7 @@ HOSTILE_TREE = [('#doctype', 'html'), ('#comment', 'x'), ('html', {'_label': 'ro
         ('fieldset', {'disabled': ''}, [('legend', {}, [('input', {}, [])]), ('input', {'type': 'checkbox', 'indeterminate': ''}, []), ('button', {}, [])]),
         ('div', {'contenteditable': '', 'dir': 'rtl'}, [('span', {'dir': 'auto'}, [])]), ('x-y', {}, []), ('svg', {}, [('a', {'href': 'z'}, [])]),
         ('table', {}, [('td', {'headers': ['h1', 'h2']}, [])]),
+        ('a:b', {'a:c': 'v', 'name': 'q"u\\o\nte', 'type': 'ra"dio', 'dir': 'l\ntr', 'lang': '"'}, [('-', {}, []), ('input', {'type': 'radio', 'name': 'q"u\\o\nte'}, [])]),
     ])]), 'tail text', ('extra', {'_label': 'extra', 'lang': 'x-'}, [])]
 
 
@@ -1462,6 +1517,15 @@ def scope_denotation_table(ctx, rule, deep=False):
             for fn in ('select', 'select_one'):
                 reqs.append(('t', fn, tpl.format(S=text), None, ()))
                 keys.append((None, tpl, sp, fn))
+    # ... also when :scope stands inside the definition of a custom selector, and with a limit
+    cdefs = {':--self': '{S}', ':--kids': '{S} > *', ':--hasx': ':has(> .x)', ':--other': ':not({S})', ':--below': '{S} :--hasx, {S} li'}
+    for t in targets:
+        for tpl in (':--self', ':--kids', 'p:--other', ':--hasx:--self', ':--below', ':--kids:--hasx', ':is(:--self, :--kids)'):
+            for sp, text in (('scope', ':scope'), ('amp', '&'), ('id', f'#{t}')):
+                cm = tuple(sorted((k, v.format(S=text)) for k, v in cdefs.items()))
+                for fn, kw in (('select', ()), ('match', ()), ('closest', ()), ('select', (('limit', 1),))):
+                    reqs.append(('t', fn, tpl, byid[t], (('custom', dict(cm)),) + kw))
+                    keys.append((t, f'{tpl} with custom selectors built on it' + (' (limit=1)' if kw else ''), sp, fn))
     res = dict(zip(keys, batch_api(ctx, {'t': (doc, order)}, reqs)))
 
     def show(r):
@@ -1483,8 +1547,8 @@ def scope_denotation_table(ctx, rule, deep=False):
     rule.obligation(bad is None)
     if bad is not None:
         t, tpl, sp, fn, got, ref = bad
-        text = tpl.format(S=':scope' if sp == 'scope' else '&')
-        same = tpl.format(S=f'#{t}' if t else '#rt')
+        text = tpl.replace('{S}', ':scope' if sp == 'scope' else '&')
+        same = tpl.replace('{S}', f'#{t}' if t else '#rt')
         rule.violation(f'scope denotation `{text}` {fn}({t or "document"})', 'soupsieve/css_match.py (match_scope / CSSMatch.__init__ / entry points)',
                        f'{fn}({text!r}) called on {"<#" + t + ">" if t else "the document"} gives {got}; with the call target named outright, {same!r}, the '
                        f'answer is {ref}: {":scope" if sp == "scope" else "&"} does not denote exactly the element the call was made on')
